@@ -4,7 +4,6 @@ use fbh::mapmodel::*;
 use fbh::prng::Rng;
 use fbh::report::{guarded, Report};
 use fbh::Ctx;
-use std::collections::BTreeSet;
 use std::panic::AssertUnwindSafe;
 use indexmap::{IndexMap, IndexSet};
 use duke::tree::class::{ClassName, ClassNameSlice, ObjClassName, ObjClassNameSlice};
@@ -561,6 +560,9 @@ fn run_world<const N: usize>(r: &mut Report, w: &World) -> anyhow::Result<()> {
 	let inh = flat_inh(&provs);
 	let rf = Ref { m: &w.m, from: w.from, to: w.to, inh: &inh };
 	let stream = w.kind;
+	// worlds of these streams are generated inside the decidable hypotheses of the theorems; the model re-checks that
+	let hyp = w.kind == "injective" || w.kind == "fixed";
+	if hyp { r.count("worlds_inside_theorem_hypotheses"); }
 	let canon = format!("{}|{}|{}|{}", g_mappings(&w.m), w.from, w.to, g_inh(&inh));
 	r.count(&format!("namespaces_{N}"));
 	r.count(&format!("from_{}", if w.from == 0 { "first" } else { "not_first" }));
@@ -568,6 +570,7 @@ fn run_world<const N: usize>(r: &mut Report, w: &World) -> anyhow::Result<()> {
 	r.count(&format!("providers_{}", provs.len()));
 
 	// ---- A remapper ----
+	let mut qa = String::from("[]");
 	match guarded(AssertUnwindSafe(|| qm.remapper_a(from, to))) {
 		Err(p) => r.violation(format!("remapper_a panicked: {p}"), replay_text(w, &inh, "remapper_a panicked")),
 		Ok(Err(e)) => r.violation(format!("remapper_a returned Err: {e}"), replay_text(w, &inh, "remapper_a returned Err")),
@@ -579,7 +582,25 @@ fn run_world<const N: usize>(r: &mut Report, w: &World) -> anyhow::Result<()> {
 					Ok(a) => { judge(r, w, &inh, &rf, q, &a, "ARemapperImpl"); out.push(g_query(q, &a)); }
 				}
 			}
-			r.case(&format!("{stream}-a"), format!("CA {} {} {} {}", g_mappings(&w.m), w.from, w.to, glist(out)));
+			// the same table as a BRemapper without member tables
+			let wrapped = quill::remapper::ARemapperAsBRemapper(ra);
+			for q in w.queries.iter().filter(|q| matches!(q, Q::Field(..) | Q::Method(..) | Q::FieldFail(..) | Q::MethodFail(..))).take(5) {
+				match eval_b(&wrapped, q) {
+					Err(p) => r.violation(format!("ARemapperAsBRemapper::{} failed: {p}", show_q(q)), replay_text(w, &inh, &show_q(q))),
+					Ok(a) => {
+						r.count("queries_against_ARemapperAsBRemapper");
+						// no member tables: unchanged name, descriptor rewritten (checked against parse-map-print on grammar descriptors)
+						if let (Q::Field(_, k) | Q::Method(_, k), Ans::RKey(got)) = (q, &a) {
+							let in_grammar = if matches!(q, Q::Method(..)) { o_method(&k.1).is_some() } else { o_field(&k.1).is_some() };
+							if in_grammar { if let Some(Some(d)) = rf.desc(w.from, w.to, &k.1) { if *got != Some((k.0.clone(), d.clone())) {
+								let what = format!("ARemapperAsBRemapper::{} = {}, expected the unchanged name with descriptor {}", show_q(q), show_ans(&a), show(&d));
+								r.violation(what.clone(), replay_text(w, &inh, &what)); } } }
+						}
+						out.push(g_query(q, &a));
+					}
+				}
+			}
+			qa = glist(out);
 		}
 	}
 
@@ -593,7 +614,7 @@ fn run_world<const N: usize>(r: &mut Report, w: &World) -> anyhow::Result<()> {
 			// remapper_b may only fail when some descriptor of a row is outside the grammar
 			let all_ok = w.m.classes.iter().all(|c| c.fields.iter().all(|f| o_field(&f.desc).is_some()) && c.methods.iter().all(|me| o_method(&me.desc).is_some()));
 			if all_ok { r.violation("remapper_b returned Err although every descriptor of the mappings is a valid descriptor".into(), replay_text(w, &inh, "remapper_b returned Err")); }
-			r.case(&format!("{stream}-b"), format!("CB {} {} {} {} false []", g_mappings(&w.m), w.from, w.to, g_inh(&inh)));
+			r.case(stream, format!("CB {} {} {} {} {} {qa} false []", gbool(hyp), g_mappings(&w.m), w.from, w.to, g_inh(&inh)));
 			return Ok(());
 		}
 		Ok(Ok(rb)) => rb,
@@ -613,13 +634,27 @@ fn run_world<const N: usize>(r: &mut Report, w: &World) -> anyhow::Result<()> {
 					_ => {}
 				}
 				let _ = verdict;
+				if let Q::Field(o, k) | Q::Method(o, k) | Q::FieldFail(o, k) | Q::MethodFail(o, k) = q {
+					let method = matches!(q, Q::Method(..) | Q::MethodFail(..));
+					let pre = rf.preorder(o);
+					let decl: Vec<usize> = pre.iter().enumerate().filter(|(_, x)| rf.declared(method, x, k).map(|v| !v.is_empty()).unwrap_or(false)).map(|(i, _)| i).collect();
+					let has_entry = |c: &S| w.m.classes.iter().any(|row| row.names[w.from].as_ref() == Some(c) && row.names[w.to].is_some());
+					if let Some(&first) = decl.first() {
+						if first == 0 { r.count("hit_declared_by_owner"); } else { r.count("hit_inherited"); }
+						if first > 0 && !has_entry(o) { r.count("hit_inherited_owner_without_entry"); }
+						if first > 1 && pre[1..first].iter().any(|c| !has_entry(c)) { r.count("hit_inherited_through_class_without_entry"); }
+						if decl.iter().any(|&i| pre[i] != pre[first]) { r.count("hit_shadowing_other_declaring_types_later_in_preorder"); }
+						if pre.len() > pre.iter().collect::<std::collections::HashSet<_>>().len() { r.count("hit_in_diamond_preorder_with_repeats"); }
+					}
+					r.count(&format!("preorder_len_{}", match pre.len() { 1 => "1", 2..=3 => "2-3", 4..=7 => "4-7", _ => "8+" }));
+				}
 				out.push(g_query(q, &a));
 			}
 		}
 	}
 	r.eval(&canon, hits > 0);
 	r.count(&format!("queries_per_world_{}", (w.queries.len() / 10) * 10));
-	r.case(&format!("{stream}-b"), format!("CB {} {} {} {} true {}", g_mappings(&w.m), w.from, w.to, g_inh(&inh), glist(out)));
+	r.case(stream, format!("CB {} {} {} {} {} {qa} true {}", gbool(hyp), g_mappings(&w.m), w.from, w.to, g_inh(&inh), glist(out)));
 
 	// ---- X -> Y -> X on the implementation ----
 	roundtrip::<N>(r, w, &qm, &rb, &provs, &inh);
@@ -735,6 +770,23 @@ fn world_f5() -> World {
 	World { m, from: 0, to: 1, provs: vec![vec![(s("SubSub"), vec![s("Sub")]), (s("Sub"), vec![s("Base")]), (s("Base"), vec![s("java/lang/Object")])]], queries, kind: "fixed" }
 }
 
+/// deal the cases into `k` shards of about the same number of bytes (coqc's time is dominated by reading the terms)
+fn balance(r: &mut Report, k: usize) {
+	let mut idx: Vec<usize> = (0..r.cases.len()).collect();
+	idx.sort_by_key(|&i| std::cmp::Reverse(r.cases[i].len()));
+	let per = (r.cases.len() + k - 1) / k;
+	let mut buckets: Vec<Vec<usize>> = vec![vec![]; k];
+	let mut bytes = vec![0usize; k];
+	for i in idx {
+		let j = (0..k).filter(|&j| buckets[j].len() < per).min_by_key(|&j| bytes[j]).unwrap();
+		buckets[j].push(i); bytes[j] += r.cases[i].len();
+	}
+	let old = std::mem::take(&mut r.cases);
+	buckets.sort_by_key(|b| std::cmp::Reverse(b.len()));
+	for b in buckets { for i in b { r.cases.push(old[i].clone()); } }
+	r.shard_size = per.max(1);
+}
+
 pub fn run(ctx: &Ctx) -> anyhow::Result<Report> {
 	let mut r = Report::new("C06", "C06.Run");
 	r.shard_size = 300;
@@ -742,8 +794,9 @@ pub fn run(ctx: &Ctx) -> anyhow::Result<Report> {
 	r.rule = "worlds = (mapping set with 2-4 namespaces and partial rows, from/to in all positions incl. from = to, one or two JarSuperProv providers over an acyclic graph: chains, diamonds, random DAGs, classes without rows, super types without entries) x up to ~60 queries (every member key under every name it carries in `from` against every class, near misses, class / array / descriptor queries). Streams: injective names, colliding names (violates the round-trip hypotheses), malformed row descriptors (remapper_b must fail), generic mapmodel mappings, map_desc through a hand-written table remapper with arbitrary class maps. A world is non-trivial when at least one member query was answered from a table; distinct by (mappings, from, to, providers).".into();
 
 	run_any(&mut r, &world_f5())?;
+	cycle_probe(&mut r);
 
-	let nworlds = if ctx.thorough { 6000 } else { 700 };
+	let nworlds = if ctx.thorough { 6000 } else { 500 };
 	for i in 0..nworlds {
 		let n = 2 + rng.below(3);
 		let cfg = match i % 10 { 0..=5 => WCfg { n, injective: true, malformed: false, kind: "injective" }, 6..=8 => WCfg { n, injective: false, malformed: false, kind: "colliding" }, _ => WCfg { n, injective: rng.chance(1, 2), malformed: true, kind: "malformed-rows" } };
@@ -769,7 +822,7 @@ pub fn run(ctx: &Ctx) -> anyhow::Result<Report> {
 	}
 	// map_desc with arbitrary class maps (targets may be empty, contain `;` or `L`)
 	let alpha = s("LL;;[()IVa/$");
-	for i in 0..(if ctx.thorough { 20000 } else { 3000 }) {
+	for i in 0..(if ctx.thorough { 20000 } else { 2000 }) {
 		let keys: Vec<S> = ["a", "L", "La", "a/b", "LL", "A$B", "I", "Ü"].iter().map(|x| s(x)).collect();
 		let mut tbl: Vec<(S, S)> = vec![];
 		for _ in 0..rng.below(4) { tbl.push((rng.pick(&keys[..]).clone(), s(*rng.pick(&["b", "L", "x/y", "LL", "", ";", "a;L", "Lb;", "名"][..])))); }
@@ -795,8 +848,31 @@ pub fn run(ctx: &Ctx) -> anyhow::Result<Report> {
 			}
 		}
 	}
-	let _ = BTreeSet::<u8>::new();
+	balance(&mut r, if ctx.thorough { 64 } else { 16 });
 	Ok(r)
 }
 
-fn main() -> anyhow::Result<()> { fbh::main_with(run) }
+/// What the real code does on a cyclic provider (outside the theorems' hypotheses): run in a child
+/// process, because unbounded recursion ends in a stack overflow that cannot be caught.
+fn cycle_probe_child() -> ! {
+	let m = MMappings { ns: vec![s("a"), s("b")], doc: None, classes: vec![MClass { names: names_row(&["A", "A_"]), doc: None, fields: vec![], methods: vec![] }] };
+	let qm: Mappings<2, NsAny> = to_quill(&m).unwrap();
+	let provs = build_provs(&[vec![(s("A"), vec![s("B")]), (s("B"), vec![s("A")])]]);
+	let rb = qm.remapper_b(Namespace::new(0).unwrap(), Namespace::new(1).unwrap(), &provs).unwrap();
+	let a = eval_b(&rb, &Q::Method(s("A"), (s("m"), s("()V"))));
+	println!("returned {:?}", a.as_ref().map(show_ans));
+	std::process::exit(0)
+}
+fn cycle_probe(r: &mut Report) {
+	let Ok(exe) = std::env::current_exe() else { return };
+	match std::process::Command::new(exe).env("C06_CYCLE_PROBE", "1").stdout(std::process::Stdio::piped()).stderr(std::process::Stdio::null()).output() {
+		Ok(o) if o.status.success() => { r.count("cycle_probe_returned"); r.notes.push(format!("cyclic provider A -> B -> A, member declared nowhere: the call {}", String::from_utf8_lossy(&o.stdout).trim())); }
+		Ok(o) => { r.count("cycle_probe_child_died"); r.notes.push(format!("cyclic provider A -> B -> A, member declared nowhere: child process ended with {} (unbounded recursion; outside the acyclicity hypothesis, the model answers Err = out of fuel)", o.status)); }
+		Err(_) => {}
+	}
+}
+
+fn main() -> anyhow::Result<()> {
+	if std::env::var_os("C06_CYCLE_PROBE").is_some() { cycle_probe_child(); }
+	fbh::main_with(run)
+}
